@@ -262,7 +262,8 @@ retry:
              */
         }
         link_or_value* lv = bn->get_lv_at(index);
-        value* vp = lv->get_value();
+        bool lv_cleared{false};
+        value* vp = lv->get_value(lv_cleared);
         base_node* next_layer = lv->get_next_layer();
         node_version64* node_version_ptr = bn->get_version_ptr();
         /**
@@ -351,6 +352,11 @@ retry:
                 return status::OK_SCAN_END;
             }
         } else {
+            if (lv_cleared) {
+                // the entry is being removed concurrently (remove is not tracked by version).
+                clean_up_tuple_list_nvc();
+                goto retry; // NOLINT
+            }
             auto in_range = [&full_key, &tuple_list, &vp, &node_version_vec,
                              &v_at_fb, &node_version_ptr, &tuple_pushed_num,
                              max_size]() {
